@@ -112,8 +112,18 @@ SMOOTH_KINDS = ('l2sq', 'huber', 'zero')
 # strategy
 
 @st.composite
-def _domain_st(draw, kinds=('tensor', 'discr', 'pspace', 'vfield')):
+def _domain_st(draw, kinds=('tensor', 'discr', 'discr', 'pspace', 'vfield',
+                            'sqpspace')):
     k = draw(st.sampled_from(list(kinds)))
+    if k == 'sqpspace':
+        # X x X: domain of the full block operators [[A, B], [C, D]]
+        base = draw(st.one_of(pb.tensor_domain_st(1, 4, weighted=False),
+                              pb.discr_domain_st(two_d=False)))
+        if base['kind'] == 'discr':
+            base['shape'] = [min(base['shape'][0], 4)]
+            base['max'] = [base['min'][0] + 0.5 * base['shape'][0]]
+        return {'kind': 'pspace', 'base': base, 'power': 2,
+                'weighting': None, 'exponent': 2.0, 'square': True}
     if k == 'tensor':
         return draw(pb.tensor_domain_st(2, 8))
     if k == 'discr':
@@ -153,7 +163,7 @@ def _op_st(draw, sd, simple_ok=True, compound_ok=True):
         return {'kind': 'broadcast',
                 'ops': [draw(pb.matrix_op_st(n, conds=[1.0, 10.0])), second]}
     if sd['kind'] == 'discr':
-        choices = ['gradient', 'gradient', 'gradient']
+        choices = ['gradient', 'gradient', 'stencil', 'stencil']
         if simple_ok:
             choices.append('simple')
         if compound_ok:
@@ -161,10 +171,17 @@ def _op_st(draw, sd, simple_ok=True, compound_ok=True):
         c = draw(st.sampled_from(choices))
         if c == 'gradient':
             return draw(pb.gradient_op_st())
+        if c == 'stencil':
+            return draw(pb.stencil_op_st(sd))
         if c == 'simple':
             return draw(pb.simple_op_st())
         return {'kind': 'broadcast',
                 'ops': [draw(pb.gradient_op_st()), draw(pb.simple_op_st())]}
+    if sd.get('square'):
+        return draw(pb.square_block_op_st(sd['base']))
+    if sd.get('power') == 2 and draw(st.booleans()):
+        # vector field over a 2d grid: also a domain of block operators
+        return draw(pb.square_block_op_st(sd['base']))
     if sd.get('power') is not None:          # vector field
         c = draw(st.sampled_from(['divergence', 'divergence', 'simple']
                                  if simple_ok else ['divergence']))
@@ -844,6 +861,15 @@ def run_case(desc):
             strata.append('op:' + p[key]['kind'])
     for o in p.get('ops', []):
         strata.append('op:' + o['kind'])
+    shapes = set()
+    for od in ([p[k] for k in ('L', 'K', 'op', 'A')
+                if isinstance(p.get(k), dict)] + list(p.get('ops', [])) +
+               [t['L'] for t in p.get('terms', [])]):
+        sh = pb.op_shape_stratum(od)
+        if sh:
+            shapes.add(sh)
+    for sh in sorted(shapes):
+        strata += [sh, '{}|{}:{}'.format(sh, mode, solver)]
 
     if p.get('accel', 'none') != 'none':
         strata.append('pdhg:accelerated')
@@ -866,6 +892,8 @@ def _domain_kind(p):
     sd = p.get('domain')
     if sd is None:
         return 'tensor'
+    if sd.get('square'):
+        return 'sqpspace'
     if sd['kind'] == 'pspace':
         return 'vfield' if sd.get('power') is not None else 'pspace'
     if sd['kind'] == 'tensor' and sd.get('weighting'):
@@ -1066,4 +1094,9 @@ REQUIRED_STRATA = (
      'domain:vfield', 'pdhg:state-matters', 'pdhg:accelerated',
      'segments:with-zero', 'inner=element', 'outer-stepsize:not-1',
      'random-order:adupdates', 'random-order:kaczmarz',
+     'L=stencil-square', 'L=block-square', 'domain:sqpspace',
+     'L=stencil-square|pair:admm', 'L=block-square|pair:admm',
+     'L=stencil-square|pair:adupdates', 'L=block-square|pair:adupdates',
+     'L=stencil-square|pair:dpdc', 'L=block-square|pair:dpdc',
+     'L=stencil-square|resume:pdhg', 'L=block-square|resume:landweber',
      'callback:inner'])
